@@ -50,11 +50,11 @@ func MkP(x, y float64) P2 { return P2{F(x), F(y)} }
 
 // GJ is a JSON-safe geometry of any of the eight types.
 type GJ struct {
-	T     string     `json:"t"` // Point MultiPoint LineString MultiLineString Polygon MultiPolygon GeometryCollection Bounds
-	Pts   []P2       `json:"pts,omitempty"`
-	Rings [][]P2     `json:"rings,omitempty"`
-	Polys [][][]P2   `json:"polys,omitempty"`
-	Geoms []GJ       `json:"geoms,omitempty"`
+	T     string   `json:"t"` // Point MultiPoint LineString MultiLineString Polygon MultiPolygon GeometryCollection Bounds
+	Pts   []P2     `json:"pts,omitempty"`
+	Rings [][]P2   `json:"rings,omitempty"`
+	Polys [][][]P2 `json:"polys,omitempty"`
+	Geoms []GJ     `json:"geoms,omitempty"`
 }
 
 func toPts(p []P2) []geom.Point {
